@@ -61,6 +61,31 @@ CLAIMS = {
          "Trusted: Lean kernel, tools/extract.py regexes, harness AST dump and trivia insertion, the real lexer (C12) for token boundaries.",
     technique="Lean 4 proof (structural induction over trees via a spine decomposition of the Pratt CST) + translator for the "
               "binding-power table + differential correspondence with parse_ast_file and the whole pipeline"),
+ "C12": dict(
+    category="proof",
+    text="Lean theorems over (i) a model of the lexer whose rule tables (65 #[token] literals, 17 #[regex] patterns as a regex AST, "
+         "priorities, callback, trivia kinds, both kind enums) are regenerated from lexer/src/lib.rs and parser/src/syntax.rs on every run, "
+         "and (ii) a model of Parser::build_tree with rowan's GreenNodeBuilder. Proved for every rule table, every text and every positive "
+         "error-token length: the token loop ends without stall or invalid bump and the token texts concatenate to the input with no empty "
+         "token (lex_tiles), byte ranges are contiguous and end on char boundaries (lex_ranges_tile), the byte count the hand-written "
+         "multi-line-string scanner bumps by is a char boundary of the UTF-8 text (multiline_boundaries, scanner modelled over bytes), every "
+         "non-error token is a longest match of the declarative regex/literal semantics and error tokens occur only where no rule matches or a "
+         "callback rejected (valid_tokens_maximal, error_only_without_match; derivative matcher proved correct). Proved for every event list that "
+         "is balanced and has one Advance per non-trivia token: build_tree succeeds and the leaves of the tree are exactly the tokens in order "
+         "with nothing dropped (buildTree_lossless); for every event list all Error-event ranges lie in the text (diag_ranges_in_text); node "
+         "ranges lie in the text (node_ranges_in_text); TokenKind and MySyntaxKind discriminants agree on all lexer kinds (kinds_aligned, decided "
+         "on the regenerated tables). Composition parse_lossless_partial. Tied to the Rust by (a) lexAll fed the real error lengths must equal "
+         "lexer::lex on every input and (b) buildTree fed the REAL event list and tokens must equal the real green tree and diagnostic ranges; "
+         "every real event list is checked to satisfy the theorem's hypotheses. Direct oracles on the implementation for every input: tiling, "
+         "char boundaries, tree text == input, leaves == tokens with same-named kinds, node/diagnostic/lowering-diagnostic ranges in the text, "
+         "line:column rendering exact, parse twice identical, no panic, no hang, deep nesting in child processes.",
+    design_ref="§5 C12, §C12 — as built",
+    note="Only validated, not proved: that logos' generated automaton is 'longest match, then priority' (L1 tie on exhaustive strings <=3 over 34 symbols, "
+         "<=4..8 over smaller alphabets, corpus, mutants, random); that file::file's event list is balanced with enough Advances (checked on every real "
+         "event list, owned by C04); determinism (parse twice). Trusted: Lean kernel, extract.py's regex-subset parser, harness serialisation, "
+         "rowan/logos as observed. Known finding: stack overflow (abort, no tree) at ~10^5 nested '(' or '!'.",
+    technique="Lean 4 proof (induction over token loop / event list, Brzozowski-derivative correctness, UTF-8 arithmetic) + table translator + "
+              "differential correspondence with lexer::lex and Parser::build_tree + exhaustive small-string search"),
  "C15": dict(
     category="proof",
     text="Lean theorems over a state machine of the artefact protocol (sources, .interface and .core files, ops edit/check/build/link/"
